@@ -788,6 +788,66 @@ fn ecdsa_p384_with_nonce(scalar: &[u8], digest: &[u8], nonce: &[u8]) -> Option<(
     }
 }
 
+/// One-off fixture maker (`paseto-sim selftest grind-p384`): ECDSA nonces k whose r = x(kG) starts
+/// with two zero bytes, and (key, nonce, message) triples whose s does, for v3.public tokens without
+/// footer and assertion. Written to /verif/fixtures/p384_short_sig.json; read by the C03 plans.
+pub fn grind_p384(want: usize) -> serde_json::Value {
+    use num_bigint_dig::BigUint;
+    use std::sync::Mutex;
+    let short_r: Mutex<Vec<String>> = Mutex::new(Vec::new());
+    std::thread::scope(|sc| {
+        for t in 0..16u64 {
+            let short_r = &short_r;
+            sc.spawn(move || {
+                let mut rng = crate::prng::Rng::new(0x5107 ^ t.wrapping_mul(0x9e37_79b9_7f4a_7c15));
+                loop {
+                    if short_r.lock().unwrap().len() >= want {
+                        return;
+                    }
+                    let mut k = rng.bytes(48);
+                    k[0] &= 0x7f;
+                    if let Some(c) = p384_public_of_scalar(&k) {
+                        if c[1] == 0 && c[2] == 0 {
+                            short_r.lock().unwrap().push(hex::encode(&k));
+                        }
+                    }
+                }
+            });
+        }
+    });
+    // short s: fixed key and nonce, grind the message
+    let n = crate::curves::p384_n();
+    let mut out_s = Vec::new();
+    let mut rng = crate::prng::Rng::new(0x5108);
+    while out_s.len() < want {
+        let mut d = rng.bytes(48);
+        d[0] &= 0x7f;
+        let mut k = rng.bytes(48);
+        k[0] &= 0x7f;
+        let Some((_, comp)) = p384_public_from_scalar(&d) else { continue };
+        let Some(kg) = p384_public_of_scalar(&k) else { continue };
+        let r = BigUint::from_bytes_be(&kg[1..49]) % &n;
+        let kinv = BigUint::from_bytes_be(&k).modpow(&(&n - BigUint::from(2u8)), &n);
+        let dv = BigUint::from_bytes_be(&d);
+        for ctr in 0..400_000u32 {
+            let m = format!("{{\"jti\":\"{ctr}\"}}");
+            let z = BigUint::from_bytes_be(&sha384(&[&pae(&[&comp, b"v3.public.", m.as_bytes(), b"", b""])]));
+            let s = (&kinv * ((&z + &r * &dv) % &n)) % &n;
+            if s.bits() <= 384 - 16 {
+                // confirm with the other arithmetic
+                let digest = sha384(&[&pae(&[&comp, b"v3.public.", m.as_bytes(), b"", b""])]);
+                if let Some((_, s2)) = ecdsa_p384_with_nonce(&d, &digest, &k) {
+                    if s2[0] == 0 && s2[1] == 0 {
+                        out_s.push(serde_json::json!({"d": hex::encode(&d), "k": hex::encode(&k), "msg": m}));
+                        break;
+                    }
+                }
+            }
+        }
+    }
+    serde_json::json!({"short_r_nonces": *short_r.lock().unwrap(), "short_s": out_s})
+}
+
 /// The v3.public token RFC 6979 + low-s normalisation prescribes (byte exact).
 pub fn v3_public_deterministic(sfx: &str, secret_raw: &[u8], m: &[u8], f: &[u8], i: &[u8]) -> Option<String> {
     use num_bigint_dig::BigUint;
